@@ -57,6 +57,39 @@ theorem ntt_no_error_otherwise (root : Nat → Option F) (outLen : Nat) (outp in
   · simp
   · split <;> simp
 
+/-- the error outcome of the transform is exactly what the stand-alone argument check reports: the
+    size limits (2^20, and 2^19 for the shifted transform), the output length and the power-of-two
+    requirement are decided by `nttSizeCheck` alone -/
+theorem nttInternal_err_iff (root : Nat → Option F) (outLen : Nat) (outp inp : Array F) (size : Nat) (setS : Bool)
+    (h0 : size ≠ 0) (e : NttError) :
+    nttInternal root outLen outp inp size setS = .err e ↔ nttSizeCheck outLen size setS = some e := by
+  unfold nttInternal nttSizeCheck
+  simp only [h0, if_false]
+  by_cases h1 : size > outLen
+  · simp only [h1, if_true]
+    constructor <;> intro h <;> simp_all
+  · simp only [h1, if_false]
+    by_cases h2 : ((setS && decide (size > 2 ^ (maxRoots - 1))) || decide (size > 2 ^ maxRoots)) = true
+    · rw [if_pos h2, if_pos h2]
+      constructor <;> intro h <;> simp_all
+    · rw [if_neg h2, if_neg h2]
+      by_cases h3 : size ≠ 2 ^ log2ceil size
+      · rw [if_pos h3, if_pos h3]
+        constructor <;> intro h <;> simp_all
+      · rw [if_neg h3, if_neg h3]
+        constructor
+        · intro h
+          split at h
+          · cases h
+          · split at h <;> cases h
+        · intro h; cases h
+
+/-- boundary of the size limit: the shifted transform of size 2^19 and the plain transform of size
+    2^20 pass the check; one doubling more does not -/
+example : nttSizeCheck (2 ^ 19) (2 ^ 19) true = none ∧ nttSizeCheck (2 ^ 20) (2 ^ 20) true = some .sizeTooLarge ∧
+    nttSizeCheck (2 ^ 20) (2 ^ 20) false = none ∧ nttSizeCheck (2 ^ 21) (2 ^ 21) false = some .sizeTooLarge := by
+  decide +kernel
+
 /-! ## bit reversal -/
 
 theorem bitrev_lt (d i : Nat) : bitrev d i < 2 ^ d := by
